@@ -186,7 +186,7 @@ func (g *gen) leafInt() *V {
 func (g *gen) leafStr() *V { return vStr(g.r.Pick(strPool)) }
 
 var dynTypes = []string{"Inner", "*Inner", "Leaf", "*Leaf", "map[string]any", "map[string]int", "int", "string",
-	"map[int]string", "map[string]Leaf", "**Inner", "Outer", "map[string]map[string]any", "Emb", "*Emb"}
+	"map[int]string", "map[string]Leaf", "**Inner", "Outer", "map[string]map[string]any", "Emb", "*Emb", "Alt", "*Alt"}
 
 func (g *gen) value(te string, d int) *V {
 	r := g.r
@@ -276,6 +276,251 @@ func looseZeroExact(v *V, te string) bool {
 		return te != "any" && v.Nil
 	}
 	return false
+}
+
+// ------------------------------------------------------------------ a second request on the same runnable
+
+// (no Emb: a name that is a direct field of one struct and a promoted field of the other, below an interface-typed
+// slot, is outside the model and the reference)
+var structFamily = []string{"Inner", "*Inner", "Leaf", "*Leaf", "Alt", "*Alt", "Alt", "*Alt"}
+
+// a variant of v (static type te) for the second request: the same shape, so that the source paths keep
+// resolving most of the time, but the interface-typed slots hold something else half of the time — preferably
+// a struct of another type with the same field names —, and some leaves differ
+func (g *gen) vary(v *V, te string, d int) *V {
+	r := g.r
+	if te == "any" {
+		if r.Chance(1, 2) {
+			dyn := v.dynType()
+			isStruct := false
+			for _, f := range structFamily {
+				if f == dyn {
+					isStruct = true
+				}
+			}
+			if isStruct && r.Chance(5, 6) {
+				nt := structFamily[r.Intn(len(structFamily))]
+				nv := g.value(nt, 2)
+				// carry the leaves over where the field names agree, so that mapped values stay distinguishable
+				return nv
+			}
+			if r.Chance(1, 2) {
+				// (not an Emb where there was none: its promoted names below an interface are outside the model)
+				if nv := g.value("any", d); !strings.HasSuffix(nv.dynType(), "Emb") || nv.dynType() == dyn {
+					return nv
+				}
+			}
+		}
+		if v.K == "nil" {
+			return v
+		}
+		return g.vary(v, v.dynType(), d)
+	}
+	switch v.K {
+	case "int":
+		if r.Chance(1, 2) {
+			return g.leafInt()
+		}
+		return v
+	case "str":
+		if r.Chance(1, 2) {
+			return g.leafStr()
+		}
+		return v
+	case "ptr":
+		if v.Nil || v.P == nil {
+			return v
+		}
+		return vPtr(v.T, g.vary(v.P, v.T, d))
+	case "map":
+		if v.Nil {
+			return v
+		}
+		m := vMap(v.T)
+		m.IK = v.IK
+		for k, e := range v.F {
+			m.F[k] = g.vary(e, v.T, d-1)
+		}
+		return m
+	case "struct":
+		st, ok := structTypes[v.T]
+		if !ok {
+			return v
+		}
+		out := vStruct(v.T)
+		for i := 0; i < st.NumField(); i++ {
+			f := st.Field(i)
+			if !f.IsExported() {
+				continue
+			}
+			ft := typeExpr(f.Type)
+			child, has := v.F[f.Name]
+			if !has {
+				if ft != "any" || !r.Chance(1, 4) {
+					continue
+				}
+				child = vNil()
+			}
+			nv := g.vary(child, ft, d-1)
+			if looseZeroExact(nv, ft) {
+				continue
+			}
+			out.F[f.Name] = nv
+		}
+		return out
+	}
+	return v
+}
+
+// the dynamic types held by the interface-typed slots that the path crosses with steps remaining
+func holeTypesAlong(v *V, te string, p []string) []string {
+	var out []string
+	for len(p) > 0 && v != nil {
+		if te == "any" {
+			out = append(out, v.dynType())
+			te = v.dynType()
+			if te == "" {
+				return out
+			}
+			continue
+		}
+		f := p[0]
+		s := v
+		if s.K == "ptr" {
+			if s.Nil || s.P == nil {
+				return out
+			}
+			s = s.P
+			te = te[1:]
+			if s.K != "struct" {
+				return out
+			}
+		}
+		switch s.K {
+		case "struct":
+			sf, ok := structTypes[s.T].FieldByName(f)
+			if !ok {
+				return out
+			}
+			te = typeExpr(sf.Type)
+			child, has := s.F[f]
+			if !has {
+				child = zeroV(te)
+			}
+			v = child
+		case "map":
+			child, has := s.F[f]
+			if s.Nil || !has {
+				return out
+			}
+			v, te = child, s.T
+		default:
+			return out
+		}
+		p = p[1:]
+	}
+	return out
+}
+
+// does a mapped source path cross an interface-typed slot whose dynamic type differs between the two requests
+func dynChanged(c *Case) bool {
+	for i := range c.Decls {
+		d := &c.Decls[i]
+		if d.Val2 == nil {
+			continue
+		}
+		for _, m := range d.Maps {
+			a := holeTypesAlong(d.Val, d.S, m.From)
+			b := holeTypesAlong(d.Val2, d.S, m.From)
+			if strings.Join(a, ",") != strings.Join(b, ",") {
+				return true
+			}
+		}
+	}
+	return false
+}
+
+func (g *gen) addSecond(c *Case) {
+	for i := range c.Decls {
+		d := &c.Decls[i]
+		d.Val2 = g.vary(d.Val, d.S, g.depth)
+	}
+}
+
+// a source path through an interface-typed slot into a struct field, where the slot holds a struct of one type in
+// the first request and of another type (same field name, other position / pointer or not) in the second request
+// served by the same compiled runnable
+func (g *gen) retypedCase() *Case {
+	r := g.r
+	type fld struct {
+		name, ty string
+		in       []string
+	}
+	f := []fld{
+		{"X", "int", []string{"Inner", "Alt"}},
+		{"Y", "string", []string{"Inner", "Alt"}},
+		{"A", "int", []string{"Leaf", "Alt"}},
+		{"B", "string", []string{"Leaf", "Alt"}},
+	}[r.Intn(4)]
+	T := tgtTypeW[r.Intn(len(tgtTypeW))]
+	tpaths := g.enumPaths(T, g.depth, true)
+	var fit []pinfo
+	for _, tp := range tpaths {
+		if tp.ty == f.ty || tp.ty == "any" {
+			fit = append(fit, tp)
+		}
+	}
+	if len(fit) == 0 {
+		return nil
+	}
+	tp := fit[r.Intn(len(fit))]
+	held := func(st string) *V {
+		v := g.value(st, 2)
+		if f.ty == "int" {
+			v.F[f.name] = vInt(int64(r.Range(1, 40)))
+		} else {
+			v.F[f.name] = vStr(strPool[1+r.Intn(len(strPool)-1)])
+		}
+		if r.Chance(1, 3) {
+			return vPtr(st, v)
+		}
+		return v
+	}
+	a := r.Intn(2)
+	h1, h2 := held(f.in[a]), held(f.in[1-a])
+	if r.Chance(1, 6) {
+		h2 = held(f.in[a]) // the same type again
+	}
+	var d Decl
+	switch r.Intn(4) {
+	case 0:
+		o1, o2 := g.value("Outer", 1), g.value("Outer", 1)
+		o1.F["H"], o2.F["H"] = h1, h2
+		d = Decl{S: "Outer", Val: o1, Val2: o2, Maps: []Mapping{{From: []string{"H", f.name}, To: tp.path}}}
+	case 1:
+		m1, m2 := vMap("any"), vMap("any")
+		m1.F["k"], m2.F["k"] = h1, h2
+		d = Decl{S: "map[string]any", Val: m1, Val2: m2, Maps: []Mapping{{From: []string{"k", f.name}, To: tp.path}}}
+	case 2:
+		d = Decl{S: "any", Val: h1, Val2: h2, Maps: []Mapping{{From: []string{f.name}, To: tp.path}}}
+	default:
+		o1, o2 := g.value("Outer", 1), g.value("Outer", 1)
+		m1, m2 := vMap("any"), vMap("any")
+		m1.F["k"], m2.F["k"] = h1, h2
+		o1.F["MA"], o2.F["MA"] = m1, m2
+		d = Decl{S: "Outer", Val: o1, Val2: o2, Maps: []Mapping{{From: []string{"MA", "k", f.name}, To: tp.path}}}
+	}
+	c := &Case{T: T, Short: r.Chance(1, 2), Note: "retyped-hole", Decls: []Decl{d}}
+	if r.Chance(1, 2) {
+		used := [][]string{tp.path}
+		nd := g.decl(T, tpaths, 1, &used)
+		if r.Chance(1, 2) {
+			c.Decls = append(c.Decls, nd)
+		} else {
+			c.Decls = []Decl{nd, d}
+		}
+	}
+	return c
 }
 
 var srcTypeW = []string{"Outer", "Outer", "Outer", "*Outer", "*Outer", "Inner", "*Inner", "Leaf", "*Leaf",
